@@ -26,3 +26,32 @@ Definition mdvd_dom (langs : list (list ocap)) : bool :=
 Definition dfxp_document (pre post : str) : str := pre ++ dfxp_marker ++ post.
 Definition before_sami : list (str * bool) := [(dfxp_marker, true); (vtt_marker, false)].
 Definition sami_document (rest : str) : str := sami_marker ++ rest.
+
+(* ---- "that reader reads the document" (wave 7, round 3) ------------------------------------------------------------ *)
+(* MicroDVD.  The domain excludes exactly the two recorded findings of the format:
+     C20-microdvd-frame0-cue        a cue that lies inside frame 0 is written {0}{0}text = the frame-rate header;
+     C20-microdvd-cue-without-text  a cue whose text has no character besides blanks and '|' is written without text.
+   A caption is VISIBLE when its text has a character that is neither white space nor '|'. *)
+Definition mdvd_visible (c : ocap) : bool :=
+  existsb (fun ch => negb (is_space ch) && negb (ch =? 124)) (cap_text c).
+Definition mdvd_read_dom (langs : list (list ocap)) : bool :=
+  match concat langs with [] => false | _ => true end && times_nonneg langs
+  && forallb (forallb (fun c => (40000 <=? oc_end c) && mdvd_visible c)) langs.
+(* what the reader must return for one written cue: the instants of its two frames at 25 fps and the text pieces *)
+Definition mdvd_expected_cap (c : ocap) : Z * Z * list str :=
+  (mdvd_frame (oc_start c) * 40000, mdvd_frame (oc_end c) * 40000,
+   filter (fun l => negb (str_eqb l [])) (split_ch 124 (mdvd_clean (mdvd_raw c)))).
+
+(* SRT.  The domain excludes the recorded finding C20-srt-empty-first-language; one language only (behind the separator
+   line the reader glues the next language's blocks to the last cue: no finding, but not "one caption per cue"); the
+   caption text has no CR (the reader splits lines at CR as well) and some character that is not white space. *)
+Definition srt_visible (c : ocap) : bool := existsb (fun ch => negb (is_space ch)) (cap_text c).
+Definition srt_read_dom (langs : list (list ocap)) : bool :=
+  match langs with
+  | [c :: t] => forallb (fun c => srt_visible c && negb (existsb (Z.eqb 13) (cap_text c))) (c :: t)
+  | _ => false
+  end.
+Definition srt_expected_cap (c : ocap) : Z * Z * list str :=
+  ((td_seconds (oc_start c) * 1000 + td_millis (oc_start c)) * 1000,
+   (td_seconds (oc_end c) * 1000 + td_millis (oc_end c)) * 1000,
+   filter nonblank (split_ch 10 (strip (cap_text c)))).
